@@ -367,6 +367,11 @@ CHECKS = {
     technique='runtime monitoring: reference model (truth table over all assignments computed by the check) against sat/1, taut/2, sat_count/2 and labeling/1 of library(clpb) on randomly generated formulas',
     text='Random formulas of depth <= 4 over up to 6 variables and the constants 0 and 1 with every connective of library(clpb) (~ * + # =:= =\\= =< >= < > card/2 with integers and ranges, +(List), *(List)) are evaluated over all assignments by the check; sat/1 must succeed exactly for satisfiable formulas, taut/2 must give 1 / 0 / fail for tautologies / contradictions / other formulas, sat_count/2 must equal the number of models, labeling/1 after sat/1 must enumerate exactly the models, each once; the same after two posted constraints, and taut/2 and sat_count/2 under a posted constraint.',
     note='Formula size is bounded by depth 4 and 6 variables (the bound the property names); residual constraints printed by the toplevel are not examined.'),
+ 'C27': dict(
+    level='exploration',
+    technique='runtime monitoring: reference model (brute-force enumeration of the whole domain product by the check) against the labelled solutions of library(clpz), plus integer arithmetic of the check for ground constraints',
+    text='Random systems of 1-4 constraints over 2-4 variables with interval domains inside -4..9 (also unions of two intervals), posted in random order relative to the domains: relations #= #\\= #< #=< #> #>= over expressions of depth <= 3 (+ - * abs min max // mod rem, unary minus), sum/3 with a random relation, all_different/1, all_distinct/1, reified combinations (#<==> #==> #\\/ #/\\ #\\) with a 0/1 variable; labelled with label/1 or labeling/2 under random strategy options; the list of solutions must equal, with multiplicity, the assignments that satisfy all constraints. Ground stratum: X #= ground expression equals the integer value (fails for a zero divisor) and ground relations agree with integer comparison.',
+    note='Domains are small (the property says bounded domains); no division inside reified constraints (its meaning for a zero divisor is not documented); ^, tuples_in, element, circuit, cumulative and optimisation options are not generated.'),
 }
 
 NOT_APPLICABLE_REASON_UNBUILT = ('check designed in DESIGN.md but not built/validated yet in this session; '
